@@ -542,6 +542,8 @@ mod oracle {
         let pats: Vec<Vec<f32>> = vec![
             vec![1.0], vec![0.0, 1.0], vec![1.0, 0.0], vec![0.0, 1.0, 0.0], vec![0.0, 0.0, 3.0], vec![2.0, 0.0, 0.0, 2.0],
             vec![0.0, 5.0, 0.0, 5.0, 0.0], vec![1e-3, 0.0, 1e3], vec![0.1; 10], vec![0.0, 1e-30, 0.0], vec![7.0, 0.0, 0.0, 0.0, 0.0, 0.0],
+            // unnormalised weights in the subnormal range, tiny but positive relative weights, a single odd weight
+            vec![1e-40, 1e-40, 2e-40], vec![1.0, 0.0, 1e-8, 1.0], vec![3e-39, 0.0, 1e-39], vec![41.0], vec![49.0], vec![1e30, 1e30],
         ];
         for w in pats {
             let sum: f32 = w.iter().sum();
@@ -549,7 +551,10 @@ mod oracle {
                 let mut cat = Categorical::<f32>::with_rng(w.clone(), SmallRng::seed_from_u64(seed));
                 let r: f32 = SmallRng::seed_from_u64(seed).random();
                 let total: f32 = cat.probs.iter().sum();
-                if (total - 1.0).abs() > 1e-5 {
+                if w.len() == 1 && cat.probs[0] != 1.0 {
+                    witness(format!("{{\"oracle\":\"c16\",\"weights\":{w:?},\"what\":\"a single category has probability {}\"}}", cat.probs[0]));
+                }
+                if !((total - 1.0).abs() <= 1e-5) {
                     witness(format!("{{\"oracle\":\"c16\",\"weights\":{w:?},\"what\":\"probabilities sum to {total}\"}}"));
                 }
                 for (i, wi) in w.iter().enumerate() {
